@@ -5,6 +5,40 @@ import json, os
 HERE = os.path.dirname(os.path.dirname(os.path.abspath(__file__)))
 
 CLAIMED = {
+    "C06": dict(
+        text="The wiring statement of Run.tla (a returned line IS file[k]; HeadersOf = cleaned cells of the first non-blank record; #name and #index "
+        "read the same stripped cell; a header beyond a short row is None) is checked by RunTrace on files generated from arbitrary cell text "
+        "(quotes, both quote characters, all four delimiters, newlines, non-ASCII, every kind of Unicode blank, empty cells), 0-12 records of 0-6 "
+        "cells with blank records anywhere, under every delimiter x quote character: the final step compares the delivered lines cell by cell "
+        "with file[k] (final_lines), the header names with HeadersOf (headers) and the values captured via #name/#index (vars).",
+        note="Applicability: encode/decode fidelity is not what a state machine decides; the spec contributes the wiring statement and TLC compares "
+        "cell matrices. Trusted: python's csv writer/reader round trip under one consistent dialect, UTF-8 files, CR and NUL excluded.",
+        technique="trace validation against the TLA+ run machine (cell-by-cell comparison of delivered lines and headers by TLC)",
+        ref="7 (C06)",
+    ),
+    "C17": dict(
+        text="spec/Syntax.tla generates every component tree of the documented match grammar up to nesting depth 1 over a lexicon containing every "
+        "token kind, with its token sequence; TLC enumerates them (two trees with one token sequence = an ambiguity of the documented grammar). "
+        "Every tree is written out and parsed for real: no _ambig node in the Lark tree, and the projected component tree (kinds, names, qualifiers, "
+        "operators, argument order, literal values) must equal the emitted one. Sequences of trees under 4 random layouts each (whitespace, newlines, "
+        "~comments~ between components, outer comments without mode settings) must project identically; every function name of the factory is "
+        "checked with each argument shape its own validation accepts; generated runnable programs under three layouts are validated by RunTrace.",
+        note="Applicability: the model is a generator and structural oracle, not a temporal one. Trusted: TLC; the projection in checks/c17.py. Tokens "
+        "inside a component are separated by single blanks; layout varies between components only (the statement).",
+        technique="TLA+ grammar spec enumerated by TLC; every derivation replayed into the real parser and the projected tree compared",
+        ref="7 (C17)",
+    ),
+    "C19": dict(
+        text="spec/History.tla: jobs run directly or through a CsvPaths instance (the route that consults the on-disk line/header cache), NewProcess "
+        "(process-global registries reset, disk cache kept), ClearCache; HistoryFree (a job's result is a function of the job alone) checked by "
+        "TLC; every emitted history is replayed with one fresh python interpreter per process segment sharing a scratch cache directory, each "
+        "job's full result tuple (lines, variables, printouts, errors, verdict, counters, headers) compared with the same job run first in a fresh "
+        "process with an empty cache; files have header cells with quotes, delimiters and blanks.",
+        note="Trusted: TLC; subprocess isolation; PYTHONHASHSEED fixed. Histories with a warm-cache/not-in-memory job are prioritised. One CsvPaths instance per process.",
+        technique="TLA+ history spec model-checked with TLC; TLC-generated histories replayed with real interpreter processes",
+        ref="7 (C19)",
+    ),
+
     "C16": dict(
         text="spec/Print.tla defines a template as a sequence of text and reference items and Emitted as their concatenation with each "
         "reference replaced by the value current when the print executes (variables plain/.key/.index/.length/unknown, headers by name/index, "
